@@ -5,6 +5,7 @@ import (
 	"encoding/json"
 	"fmt"
 	"io"
+	"log"
 	"os"
 	"strconv"
 
@@ -131,7 +132,11 @@ func (fs *FileStorage) GetMessages(offset uint64) ([]storage.Message, error) {
 
 		row = scanner.Bytes()
 		if err = json.Unmarshal(row, &data); err != nil {
-			return nil, fmt.Errorf("failed to unmarshal a message %s: %w", string(row), err)
+			// skipped, as the Kafka back-end skips a record it cannot decode: failing the whole read
+			// ended the node's polling loop, and again after every restart - its offset never got
+			// past the line
+			log.Printf("failed to unmarshal a message at offset %d, skipping it: %s", position-1, err.Error())
+			continue
 		}
 
 		// an entry's offset is its position in the log, whatever the entry itself claims: the node
